@@ -7,9 +7,9 @@ package anytype
 import (
 	"errors"
 	"fmt"
-	"strconv"
 	"math"
 	"sort"
+	"strconv"
 	"strings"
 )
 
